@@ -36,7 +36,8 @@ SEC = 10 ** 9
 
 
 def _srv(i):
-    return "http s%d /" % i
+    # every third server has a mixed-case host: server identity is (scheme, host, path) as written
+    return "http App-%d.Example /" % i if i % 3 == 2 else "http s%d /" % i
 
 
 def _dyadic(f):
@@ -129,7 +130,15 @@ def gen(rng, tier):
                 lines.append("weights")
             elif r < 0.2:
                 i = rng.randrange(n + 1)
-                lines.append("remove " + _srv(i))
+                # sometimes the removal is issued while a request's weight adjustment is pushing weights into the balancer
+                if rng.random() < 0.3:
+                    # ... of an adjustment that does happen: every meter ready and the back-off over
+                    for j in sorted(alive):
+                        lines.append("ready %s 1" % _srv(j))
+                    lines.append("adv %d" % (B + 1))
+                    lines.append("serve-remove " + _srv(i))
+                else:
+                    lines.append("remove " + _srv(i))
                 alive.discard(i)
                 cur.pop(i, None)
                 lines.append("weights")
@@ -179,6 +188,11 @@ def _expand(ops, outs):
             a1, w1, a2, w2 = o.split(" ; ")
             o2 += ["serve", "weights", "serve", "weights"]
             u2 += [a1, w1, a2, w2]
+        elif l.split() and l.split()[0] == "serve-remove" and len(l.split()) == 4 and o.count(" ; ") == 1:
+            # a request, then (atomically after it) the removal that was issued while its adjustment pushed weights
+            a, b = o.split(" ; ")
+            o2 += ["serve", "remove " + " ".join(l.split()[1:])]
+            u2 += [a, b]
         else:
             o2.append(l)
             u2.append(o)
